@@ -104,6 +104,29 @@ def oracle(case: dict):
             return None
         finally:
             shutil.rmtree(tmp, ignore_errors=True)
+    if kind == "include-x":
+        # the two files in DIFFERENT formats (native / JSON / Foam): each file is read with the parser its own ending asks for
+        dictIO = native.dictio()
+        tmp = native.scratch_dir("c18x_")
+        try:
+            a = tmp / (case["a"] + case["ea"])
+            b = tmp / (case["b"] + case["eb"])
+            a.parent.mkdir(parents=True, exist_ok=True)
+            b.parent.mkdir(parents=True, exist_ok=True)
+            try:
+                dictIO.DictWriter.write({"own": 1}, a, mode="w")
+                dictIO.DictWriter.write({"fromB": 2, "subB": {"x": 3}}, b, mode="w")
+                da = dictIO.DictReader.read(a)
+                da.include(dictIO.DictReader.read(b))
+                da.dump()
+                back = gen.plain(dict(dictIO.DictReader.read(a)))
+            except Exception as e:  # noqa: BLE001
+                return ("include-raises", f"a={a.name} b={b.name}: include/dump/read raised {type(e).__name__}: {e}")
+            if back.get("fromB") != 2 or back.get("subB") != {"x": 3} or back.get("own") != 1:
+                return ("include-not-resolved", f"a={case['a'] + case['ea']} includes b={case['b'] + case['eb']}: reading the dumped file gives {native.strip_placeholders(back)!r}")
+            return None
+        finally:
+            shutil.rmtree(tmp, ignore_errors=True)
     if kind == "include":
         tmp = native.scratch_dir("c18i_")
         try:
@@ -393,6 +416,14 @@ def run(ctx):
         if r:
             ctx.oracle_fail(c, r[0], r[1])
         ctx.count(("i", a, b, c.get("a_in_memory")), da != db, "include:random")
+    # including and included file in different formats, for every placement
+    for name, (a, b) in PLACEMENTS.items():
+        for ea, eb in (("", ".json"), (".json", ""), (".json", ".json"), ("", ".foam"), (".foam", ".json")):
+            c = {"kind": "include-x", "a": a, "b": b, "ea": ea, "eb": eb}
+            r = oracle(c)
+            if r:
+                ctx.oracle_fail(c, r[0], r[1])
+            ctx.count(("ix", a, b, ea, eb), True, "include-cross-format")
     sd_include_cases(ctx, rng)
     if ctx.classes["rel"] == 0 or ctx.classes["hcr"] == 0:
         raise RuntimeError("generator starved")
